@@ -1321,6 +1321,9 @@ class ConstrainedQuadraticModel(cyConstrainedQuadraticModel):
             >>> cqm1.is_almost_equal(cqm2, 3)
             True
         """
+        if not isinstance(other, ConstrainedQuadraticModel):
+            return False
+
         def constraint_eq(c0: Comparison, c1: Comparison) -> bool:
             return (c0.sense is c1.sense
                     and c0.lhs.is_almost_equal(c1.lhs, places=places)
@@ -1340,6 +1343,9 @@ class ConstrainedQuadraticModel(cyConstrainedQuadraticModel):
             other:
                 Constrained quadratic model with which to compare biases.
         """
+        if not isinstance(other, ConstrainedQuadraticModel):
+            return False
+
         def constraint_eq(c0: Comparison, c1: Comparison) -> bool:
             return (c0.sense is c1.sense
                     and c0.lhs.is_equal(c1.lhs)
